@@ -14,6 +14,16 @@ state satisfying `Inv`:
 -/
 namespace CV.Bits
 
+/-- decidable equality of results, so that concrete instances can be checked by `decide` -/
+instance instDecidableEqExcept {ε α : Type} [DecidableEq ε] [DecidableEq α] :
+    DecidableEq (Except ε α) := fun a b =>
+  match a, b with
+  | .ok x, .ok y => if h : x = y then isTrue (by rw [h]) else isFalse (by intro h'; cases h'; exact h rfl)
+  | .error x, .error y =>
+    if h : x = y then isTrue (by rw [h]) else isFalse (by intro h'; cases h'; exact h rfl)
+  | .ok _, .error _ => isFalse (by intro h; cases h)
+  | .error _, .ok _ => isFalse (by intro h; cases h)
+
 /-! ## `tz`, `lowBits` -/
 
 theorem tz_two_pow : ∀ (W j : Nat), j < W → tz W (2^j) = j
